@@ -33,6 +33,22 @@ def check_config(cfg, w, rep):
         check_commit_size(cfg, w, rep, prog.fns[p])
         check_commit_keeps_declared(cfg, w, rep, prog.fns[p])
     check_commit_always_inserts(cfg, w, rep, "commit")
+    # ---- ... and that byte counter is the number of data bytes written: `counter += amount the inner writer accepted` in every
+    #      data-accepting method of the keyed writers (C02 c, re-checked here) ----
+    from ..framework import Report as _Report
+    from . import c02 as _c02
+    from ..world import strip_refs as _sr
+    subc = _Report("C02")
+    for lf_ in prog.fns.values():
+        o_ = lf_.outer
+        if o_.name in ("write", "poll_write") and o_.impl_trait and _sr(o_.impl_self or "") in ("put::SyncWriter", "put::Writer"):
+            _c02.check_counter(cfg, w, subc, lf_)
+    for (c_, rule, k, desc, ok) in subc.obligations:
+        if ok:
+            rep.ob(cfg, "commit-size/" + rule, k, desc)
+    for k, v in subc.violations.items():
+        rep.violation("commit-size:%s" % k, "the size recorded by default would not be the number of bytes written — " + v.msg, loc=v.loc, config=cfg,
+                      rule="commit-size/" + (v.rule or ""))
     # ---- listings return what lookups return: the listing's selection and field map (C10), re-checked here ----
     from ..framework import Report
     from . import c10
